@@ -8,6 +8,7 @@
   it back as the monitored content.
 -/
 import Rbgp.Mon2.Proofs
+import Rbgp.Mon2.DProofs
 namespace Rbgp.Mon2.Props
 open Rbgp.Mon2 Rbgp.Mon2.Spec Rbgp.Mon2.Proofs
 
@@ -31,37 +32,8 @@ theorem run_no_panic (c : Case) (hd : inDomain c = true) (he : c.recs.all (embOk
 theorem bmp_len_exact (r : Rec) (w : Bytes) (hb : isBmp r = true) (he : r.encode = some w)
     (hl : w.length < 4294967296) :
     ∃ body, w.length = 6 + body.length ∧ be ((w.drop 1).take 4) = w.length ∧
-      ∀ rest, readBmpCommon (w ++ rest) = some (3, bmpType r, body, rest) := by
-  have key : ∀ code body, code < 256 → w = bmpMsg code body →
-      w.length = 6 + body.length ∧ be ((w.drop 1).take 4) = w.length ∧
-        ∀ rest, readBmpCommon (w ++ rest) = some (3, code, body, rest) := by
-    intro code body hc hw
-    have hlen : w.length = 6 + body.length := by subst hw; simp [bmpMsg]; omega
-    refine ⟨hlen, ?_, fun rest => by subst hw; exact readBmpCommon_bmpMsg code body rest hc (by omega)⟩
-    subst hw
-    simp only [bmpMsg, u8, List.cons_append, List.nil_append, List.drop_succ_cons, List.drop_zero]
-    rw [List.take_left' (length_u32 _), be_u32_lt (by omega)]
-    exact hlen.symm
-  cases r with
-  | bmpRm h ap emb mon =>
-    cases emb with
-    | none => cases he
-    | some b => exact ⟨_, key 0 _ (by omega) (by simpa [Rec.encode] using he.symm)⟩
-  | bmpUp h la lp rp emb mL mR =>
-    cases emb with
-    | none => cases he
-    | some b => exact ⟨_, key 3 _ (by omega) (by simpa [Rec.encode] using he.symm)⟩
-  | bmpDown h rs =>
-    cases hr : rs.encode with
-    | none => simp [Rec.encode, hr] at he
-    | some e => exact ⟨_, key 2 _ (by omega) (by simpa [Rec.encode, hr] using he.symm)⟩
-  | bmpInit tlvs => exact ⟨_, key 4 _ (by omega) (by simpa [Rec.encode] using he.symm)⟩
-  | bmpStats => exact ⟨_, key 1 _ (by omega) (by simpa [Rec.encode] using he.symm)⟩
-  | bmpTerm => exact ⟨_, key 5 _ (by omega) (by simpa [Rec.encode] using he.symm)⟩
-  | bmpMirror => exact ⟨_, key 6 _ (by omega) (by simpa [Rec.encode] using he.symm)⟩
-  | mrtMp => cases hb
-  | tdPeers => cases hb
-  | tdRib => cases hb
+      ∀ rest, readBmpCommon (w ++ rest) = some (3, bmpType r, body, rest) :=
+  bmp_len_exact_proof r w hb he hl
 
 /-- Per-peer header (RFC 7854 §4.2): when the caller does not pass the V bit itself (the daemon passes 0, L, O
     or L|O), the header is 42 bytes, its V flag is set iff the peer address is IPv6, the 16-byte address field
@@ -70,17 +42,8 @@ theorem bmp_len_exact (r : Rec) (w : Bytes) (hb : isBmp r = true) (he : r.encode
 theorem bmp_vflag_iff_v6 (h : PeerHdr) (hd : hdrDom h = true) (rest : Bytes) :
     ∃ p, readPph (h.encode ++ rest) = some (p, rest) ∧ h.encode.length = 42 ∧
       (p.flags / 128 % 2 = 1 ↔ h.addr.isV6 = true) ∧ p.addr = addr16 h.addr ∧
-      firstFail (checkPph h p) = none := by
-  refine ⟨pphOf h, readPph_encode h hd rest, length_encode_hdr h hd, ?_, rfl, checkPph_ok h hd⟩
-  have := checkPph_ok h hd
-  simp only [checkPph, firstFail] at this
-  -- the second clause of checkPph is the V-flag equivalence
-  by_cases hp : (pphOf h).ptype = h.ptype
-  · simp only [decide_eq_true hp, firstFail] at this
-    by_cases hv : ((pphOf h).flags / 128 % 2 = 1 ↔ h.addr.isV6 = true)
-    · exact hv
-    · simp [decide_eq_false hv, firstFail] at this
-  · simp [decide_eq_false hp, firstFail] at this
+      firstFail (checkPph h p) = none :=
+  bmp_vflag_iff_v6_proof h hd rest
 
 /-- The hypothesis of `bmp_vflag_iff_v6` is needed: a caller that passes the V bit for an IPv4 peer gets a
     header whose V flag is set although the address is IPv4 (`flags | V`: the bit is never cleared). -/
@@ -185,46 +148,8 @@ theorem mrt_len_exact (r : Rec) (w : Bytes) (hb : isBmp r = false) (he : r.encod
     (hts : match r with | .tdPeers ts .. => ts < 4294967296 | .tdRib _ ts .. => ts < 4294967296 | _ => True)
     (hl : w.length < 4294967296) :
     ∃ ts ty st body, w.length = 12 + body.length ∧ be ((w.drop 8).take 4) = body.length ∧
-      ∀ rest, readMrtCommon (w ++ rest) = some (ts, ty, st, body, rest) := by
-  have key : ∀ ts code sub body, ts < 4294967296 → code < 65536 → sub < 65536 → w = mrtRecord ts code sub body →
-      w.length = 12 + body.length ∧ be ((w.drop 8).take 4) = body.length ∧
-        ∀ rest, readMrtCommon (w ++ rest) = some (ts, code, sub, body, rest) := by
-    intro ts code sub body h1 h2 h3 hw
-    have hlen : w.length = 12 + body.length := by subst hw; simp [mrtRecord]; omega
-    refine ⟨hlen, ?_, fun rest => by
-      subst hw; exact readMrtCommon_mrtRecord ts code sub body rest h1 h2 h3 (by omega)⟩
-    subst hw
-    simp only [mrtRecord, u32, u16, List.cons_append, List.nil_append, List.drop_succ_cons, List.drop_zero]
-    have : ∀ (a b c d : Nat) (t : Bytes), List.take 4 (a :: b :: c :: d :: t) = [a, b, c, d] := by
-      intros; rfl
-    rw [this]
-    have := be_u32_lt (n := body.length) (by omega)
-    simpa [u32] using this
-  cases r with
-  | mrtMp h ap emb mon =>
-    cases emb with
-    | none => cases he
-    | some b =>
-      have hsub : mpSubtype h.asn4 ap < 65536 := by cases ap <;> simp [mpSubtype]
-      exact ⟨_, _, _, _, key 0 16 _ _ (by omega) (by omega) hsub (by simpa [Rec.encode] using he.symm)⟩
-  | tdPeers ts rid peers =>
-    exact ⟨_, _, _, _, key ts 13 1 _ hts (by omega) (by omega) (by simpa [Rec.encode] using he.symm)⟩
-  | tdRib v6 ts seq mask addr ents =>
-    cases hp : encodePrefix mask addr with
-    | none => simp [Rec.encode, hp] at he
-    | some p =>
-      cases hes : writeRibEntries v6 ents with
-      | none => simp [Rec.encode, hp, hes] at he
-      | some es =>
-        have hsub : (if v6 then 4 else 2) < 65536 := by cases v6 <;> simp
-        exact ⟨_, _, _, _, key ts 13 _ _ hts (by omega) hsub (by simpa [Rec.encode, hp, hes] using he.symm)⟩
-  | bmpRm => cases hb
-  | bmpUp => cases hb
-  | bmpDown => cases hb
-  | bmpInit => cases hb
-  | bmpStats => cases hb
-  | bmpTerm => cases hb
-  | bmpMirror => cases hb
+      ∀ rest, readMrtCommon (w ++ rest) = some (ts, ty, st, body, rest) :=
+  mrt_len_exact_proof r w hb he hts hl
 
 /-- BGP4MP header (RFC 6396 §4.4.3): for a 4-byte-AS header whose peer and local address are of the same
     family (they are the two ends of one TCP session), the AFI is 2 iff the addresses are IPv6, both address
@@ -236,12 +161,8 @@ theorem mrt_afi_matches_addrs (h : MpHdr) (h4 : h.asn4 = true) (hw : ipWf h.radd
       (h.raddr.bytes ++ h.laddr.bytes)))) ∧
     h.raddr.bytes.length = (if h.raddr.isV6 then 16 else 4) ∧
     h.laddr.bytes.length = (if h.raddr.isV6 then 16 else 4) ∧
-    bgp4mpSubtype (mpSubtype h.asn4 ap) = some (4, ap) := by
-  obtain ⟨hr, hl⟩ := hw
-  refine ⟨?_, ?_, ?_, by cases ap <;> simp [mpSubtype, bgp4mpSubtype]⟩
-  · cases ha : h.raddr <;> cases hb : h.laddr <;> simp_all [MpHdr.encode, Ip.isV6, Ip.bytes]
-  · cases ha : h.raddr <;> simp_all [ipWf, Ip.isV6, Ip.bytes]
-  · cases ha : h.raddr <;> cases hb : h.laddr <;> simp_all [ipWf, Ip.isV6, Ip.bytes]
+    bgp4mpSubtype (mpSubtype h.asn4 ap) = some (4, ap) :=
+  mrt_afi_matches_addrs_proof h h4 hw hfam ap
 
 /-- and the checker accepts the whole BGP4MP record (single embedded UPDATE) -/
 theorem mrt_embedded_roundtrip_partial (tbl : Tbl) (np : Option Nat) (h : MpHdr) (ap : Bool) (b : Bytes)
@@ -334,5 +255,57 @@ set_option maxRecDepth 100000 in
 /-- the single-frame hypotheses of `bmp_embedded_roundtrip_partial` are satisfiable -/
 example : IsFrame 2 Ex.upd ∧ lookup Ex.c.tbl true Ex.upd = some (.eor 65537) ∧
     carries true (.eor 65537) [.eor 65537] = true := by decide
+
+/-! ### the daemon-side converters (daemon/src/bmp.rs, daemon/src/mrt.rs) -/
+
+/-- The modelled converters (`adj_rib_in_to_bmp_update` + per-peer header of the live events,
+    `adj_rib_out_to_bmp_update`, `loc_rib_to_bmp`, `adj_rib_in_to_mrt`, `session_down_to_bmp`,
+    `flush_peer_snapshot`, `dump_table`) emit exactly the records `DSpec.wanted` asks for an event. -/
+theorem converters_emit_wanted (e : Ev) : e.toRecs = DSpec.wanted e :=
+  DProofs.toRecs_eq_wanted e
+
+/-- **Daemon-level master theorem**: for every sequence of monitored events in the daemon's domain (and
+    packet-level records in between) the reference checker accepts what the modelled converters + encoders emit. -/
+theorem daemon_check_run_ok (d : DCase) (hd : DSpec.inDomain d = true)
+    (he : (d.toCase).recs.all (embOk d.tbl) = true) : DSpec.check d (drun d) = .ok :=
+  DProofs.dcheck_run d hd he
+
+/-- `dump_table`: every peer index written into a RIB entry is smaller than the number of peers of the
+    PEER_INDEX_TABLE written before it, and the entry at that index is the peer the path was learned from. -/
+theorem dump_peer_index_consistent (peers : List PeerEnt) (p : DPath) (i : Nat)
+    (h : DSpec.position peers p.src.raddr = some i) :
+    i < peers.length ∧ ∃ e, peers[i]? = some e ∧ e.addr = p.src.raddr :=
+  ⟨DProofs.position_lt peers _ i h, DProofs.position_addr peers _ i h⟩
+
+/-- `dump_table`: no path is lost - a RIB record has exactly one entry per path of its prefix (every path's peer
+    is in the index table, so the `filter_map` never drops one), and all their indexes are in range. -/
+theorem dump_entry_count_consistent (chgs : List DChg) (c : DChg) (hc : c ∈ chgs) :
+    (DSpec.entriesOf (DSpec.peersOf chgs) c.paths).length = c.paths.length ∧
+      ∀ e ∈ DSpec.entriesOf (DSpec.peersOf chgs) c.paths, e.pidx < (DSpec.peersOf chgs).length :=
+  ⟨DProofs.entriesOf_length chgs c hc, DProofs.entriesOf_pidx _ _⟩
+
+namespace DEx
+def src1 : Src := { raddr := .v4 [10, 0, 0, 1], laddr := .v4 [10, 0, 0, 9], rasn := 65001, lasn := 65009, rid := 167772161 }
+def src2 : Src := { raddr := .v6 (List.replicate 16 2), laddr := .v6 (List.replicate 16 9), rasn := 4200000001, lasn := 65009, rid := 167772162 }
+def path (s : Src) (nh : Bytes) : DPath := { src := s, nh := some nh, attrs := Ex.attrs }
+def d : DCase :=
+  { tbl := [(false, Ex.upd, .unreach 65537 [(0, [24, 10, 0, 1])]), (true, Ex.upd, .reach 131073 [(7, [0])] (some [1]) Ex.attrs),
+            (false, Ex.notif, .other [3])],
+    items := [ .ev (.rm true { src := src1, fam := 65537, ap := false, nlris := [(0, [24, 10, 0, 1])], attrs := none,
+                               nh := none, ts := 5 } (some Ex.upd)),
+               .ev (.mrt { src := src2, fam := 131073, ap := true, nlris := [(7, [0])], attrs := some Ex.attrs,
+                           nh := some [1], ts := 5 } (some Ex.upd)),
+               .ev (.down (.v4 [10, 0, 0, 1]) 65001 167772161 4294967301 (.remote (.other [3])) (some Ex.notif)),
+               .ev (.dump [1, 1, 1, 1]
+                     [ { mask := 24, addr := [10, 0, 0, 0], paths := [path src2 [192, 168, 0, 1], path src1 [192, 168, 0, 2]] },
+                       { mask := 8, addr := [11, 0, 0, 0], paths := [path src1 [192, 168, 0, 2]] } ]
+                     [ { mask := 32, addr := [32, 1, 13, 184] ++ List.replicate 12 0, paths := [path src2 (List.replicate 16 2)] } ]),
+               .pkt (.tdRib false 0 9 0 [0, 0, 0, 0] [ { pidx := 1, orig := 0, nh := none, attrs := [] } ]) ] }
+end DEx
+
+set_option maxRecDepth 100000 in
+/-- non-vacuity of the daemon-level master theorem (a live event, an MRT event, a peer-down, a two-peer dump and a
+    packet-level RIB record that refers to the dump's peer table) -/
+example : DSpec.inDomain DEx.d = true ∧ (DEx.d.toCase).recs.all (embOk DEx.d.tbl) = true := by decide
 
 end Rbgp.Mon2.Props
